@@ -1,7 +1,7 @@
 (* C33 / styledown — Render always returns a normal Text; the round trip for the
    executed instance (table-driven wcwidth.OfRune, observed parse table). *)
 From verif Require Import lib.Base lib.Utf8 model.C34_width model.C33 model.C33_styledown
-  proofs.C33_proofs proofs.C33_proofs2 proofs.C33_sd_flat proofs.C33_sd_table proofs.C33_sd_round
+  proofs.C33_proofs proofs.C33_proofs2 proofs.C33_proofs3 proofs.C33_sd_flat proofs.C33_sd_table proofs.C33_sd_round
   proofs.C33_sd_main proofs.C34_inst.
 Open Scope Z_scope.
 
@@ -50,15 +50,6 @@ Section RenderNormal.
 End RenderNormal.
 
 (* ---- the contract of parseStyleCharDef, checked on the observed table ---- *)
-Definition entry_ok (e : bytes * option (N * list styling)) : bool :=
-  match snd e with
-  | None => true
-  | Some (c, _) =>
-    (of_rune c =? 1) && existsb (N.eqb c) (runes_of (fst e))
-    && negb (runes_eqb (runes_of (fst e)) no_eol)
-  end.
-Definition table_wf (tbl : def_table) : bool := forallb entry_ok tbl.
-
 Lemma table_parse_in tbl l v : table_parse tbl l = Some v ->
   exists k, In (k, Some v) tbl /\ runes_of k = l.
 Proof.
@@ -95,7 +86,10 @@ Proof. vm_compute. discriminate. Qed.
 Lemma of_rune_builtin c ats : lookup c builtin_chars = Some ats -> of_rune c = 1.
 Proof.
   unfold builtin_chars. cbn [lookup].
-  repeat (destruct (N.eqb _ c) eqn:?; [match goal with H : N.eqb _ c = true |- _ => apply N.eqb_eq in H; subst c end; intros _; vm_compute; reflexivity|]).
+  destruct (N.eqb 32 c) eqn:E1; [apply N.eqb_eq in E1; subst c; intros _; vm_compute; reflexivity|].
+  destruct (N.eqb 42 c) eqn:E2; [apply N.eqb_eq in E2; subst c; intros _; vm_compute; reflexivity|].
+  destruct (N.eqb 95 c) eqn:E3; [apply N.eqb_eq in E3; subst c; intros _; vm_compute; reflexivity|].
+  destruct (N.eqb 35 c) eqn:E4; [apply N.eqb_eq in E4; subst c; intros _; vm_compute; reflexivity|].
   discriminate.
 Qed.
 
